@@ -337,6 +337,15 @@ def work_wires_of(op):
     return [w for w in ww if w not in op.wires], wwt
 
 
+def specs_wires(t):
+    from pv import specs
+
+    leaf = t
+    while leaf["op"] in ("A", "P", "C") and "base" in leaf:
+        leaf = leaf["base"]
+    return specs.spec_wires(leaf)
+
+
 def sweep(per_form=None, maxw=9, names=None):
     """Deterministic finite sub-domain: for every zoo leaf and wrapper form a few fixed instances (drawn from the
     same strategy with Hypothesis' derandomised generator, the all-minimal first example skipped) and, for each
@@ -374,3 +383,17 @@ def sweep(per_form=None, maxw=9, names=None):
                     n = 1  # let check() surface the problem
                 for r in range(n):
                     yield {"t": s["t"], "r": r, "maxw": maxw}
+                if form == "B" and "C" in per_form and len(specs_wires(s["t"])) <= 4:
+                    # fixed control patterns for every leaf: the control-on-zero and mixed branches of controlled
+                    # rules are easy to get wrong and rare under uniform sampling
+                    for cw, cv, ww, wwt in ((["kc1"], [1], [], None), (["kc1"], [0], [], None), (["kc1", "kc2"], [0, 1], [], None),
+                                            (["kc1", "kc2"], [1, 1], ["kw1"], "zeroed"), (["kc1", "kc2", "kc3"], [1, 0, 0], ["kw1"], "borrowed")):
+                        t = {"op": "C", "base": s["t"], "cw": cw, "cv": cv}
+                        if ww:
+                            t["ww"], t["wwt"] = ww, wwt
+                        try:
+                            n2 = len(applicable_rules(build_target(t)))
+                        except Exception:  # noqa: BLE001
+                            n2 = 1
+                        for r in range(n2):
+                            yield {"t": t, "r": r, "maxw": maxw}
